@@ -106,7 +106,17 @@ def run_case(spec0):
     rng = np.random.default_rng([int(spec0['seed']), 12])
     spec = product_spec(spec0['seed'])
     os.makedirs(common.WORK, exist_ok=True)
-    root = tempfile.mkdtemp(dir=common.WORK, prefix="c12_")
+    top = tempfile.mkdtemp(dir=common.WORK, prefix="c12_")
+    root = top
+    if spec0['seed'] % 4 == 1:
+        # the cache lives inside the simulation tree: its behaviour must not
+        # depend on what the tree or the simulation is called
+        HOST = ['my.file_sims', 'checkpoint.chkpt', 'run.it_8.h5', 'all_iterations', 'it_12',
+                'with space', 'bracket[0]', 'rl=1']
+        root = os.path.join(top, HOST[(spec0['seed'] // 4) % len(HOST)])
+        os.makedirs(root)
+        if (spec0['seed'] // 4) % 2:
+            spec['simname'] = HOST[(spec0['seed'] // 7) % len(HOST)]
     ltag = [spec['layout'], 'grouped' if spec['grouped'] else 'ungrouped',
             f"restarts={len(spec['restarts'])}"]
     try:
@@ -258,7 +268,7 @@ def run_case(spec0):
             if hits and misses:
                 res['monitor']['partial_cache_calls'] = res['monitor'].get('partial_cache_calls', 0) + 1
     finally:
-        shutil.rmtree(root, ignore_errors=True)
+        shutil.rmtree(top, ignore_errors=True)
     return res
 
 
